@@ -26,6 +26,7 @@ open _root_.Registry Driver
 structure DState where
   s : State := init
   pidOn : Bool := false
+  evOn : Bool := false            -- a pid_registry::monitor listener logs lifecycle events
   prev : Option View := none      -- previous implementation view in this case
   waited : List Nat := []         -- actors whose `wait()` returned (implementation)
   released : List Nat := []       -- names that were registered and released in this case
@@ -39,6 +40,14 @@ def sortPairs (l : List (Nat × Nat)) : List (Nat × Nat) :=
 
 def sortNats (l : List Nat) : List Nat := (l.toArray.qsort (· < ·)).toList
 
+def showEvs (evs : List (Bool × Nat)) : String :=
+  if evs.isEmpty then "-" else ",".intercalate (evs.map fun e => s!"{if e.1 then "S" else "T"}{e.2}")
+
+def parseEv? (e : String) : Option (Bool × Nat) :=
+  if e.startsWith "S" then (e.drop 1).toString.toNat?.map (true, ·)
+  else if e.startsWith "T" then (e.drop 1).toString.toNat?.map (false, ·)
+  else none
+
 def showView (pidOn : Bool) (v : View) : String :=
   let names := sortPairs v.names
   let ns := if names.isEmpty then "-" else ",".intercalate (names.map fun p => s!"{p.1}:{p.2}")
@@ -48,7 +57,10 @@ def showView (pidOn : Bool) (v : View) : String :=
   let acts := (v.actors.toArray.qsort (fun a b => a.id < b.id)).toList
   let as := if acts.isEmpty then "-" else ",".intercalate (acts.map fun x =>
     s!"{x.id}:{showOptNat x.name}:{if x.remote then "R" else "L"}:{x.status}")
-  s!"names={ns} pids={ps} actors={as}"
+  let es := match v.evs with
+    | some evs => showEvs evs
+    | none => "x"
+  s!"names={ns} pids={ps} actors={as} ev={es}"
 
 def parseOptNat? (s : String) : Option (Option Nat) :=
   if s == "-" then some none else s.toNat?.map some
@@ -68,14 +80,17 @@ def field? (w pre : String) : Option String :=
 
 def parseView? (s : String) : Option View :=
   match words s with
-  | [ns, ps, as] => do
+  | [ns, ps, as, es] => do
     let ns ← field? ns "names="
     let ps ← field? ps "pids="
     let as ← field? as "actors="
+    let es ← field? es "ev="
     let names ← if ns == "-" then some [] else (splitOnChar ns ',').mapM parsePair?
     let pids ← if ps == "x" then some none else (natList? ps).map some
     let actors ← if as == "-" then some [] else (splitOnChar as ',').mapM parseActor?
-    pure { names, pids, actors }
+    let evs ← if es == "x" then some none else if es == "-" then some (some [])
+      else ((splitOnChar es ',').mapM parseEv?).map some
+    pure { names, pids, actors, evs }
   | _ => none
 
 def splitImpl (impl : String) : String × String :=
@@ -92,81 +107,87 @@ def showObs : Obs → String
   | .foundPid (some a) => s!"found {a}"
 
 def runOps (s : State) (ops : List Op) : State := run false s ops
+def evOps (s : State) (ops : List Op) : List (Bool × Nat) := runEvents false s ops
 
 /-- Model answer and new state for one op line; `none` = unparsable. -/
-def modelStep (s : State) (w : List String) : Option (State × String × Bool) :=
+def modelStep (s : State) (w : List String) : Option (State × String × Bool × List (Bool × Nat)) :=
   let exists? (k : Nat) := (getA s k).isSome
   match w with
   | ["reg", k, n] => do
     let k ← k.toNat?; let n ← n.toNat?
     let (s', o) := step false s (.register k n)
-    pure (s', showObs o, o == .dup)
+    pure (s', showObs o, o == .dup, pidEvents s (.register k n))
   | ["create", k] => do
     let k ← k.toNat?
-    let (s', o) := step false s (.create k); pure (s', showObs o, false)
+    let (s', o) := step false s (.create k); pure (s', showObs o, false, pidEvents s (.create k))
   | ["proxy", k, n] => do
     let k ← k.toNat?; let n ← parseOptNat? n
-    let (s', o) := step false s (.proxy k n); pure (s', showObs o, false)
+    let (s', o) := step false s (.proxy k n); pure (s', showObs o, false, [])
   | ["pub", k, st] => do
     let k ← k.toNat?; let st ← st.toNat?
-    let (s', o) := step false s (.publish k st); pure (s', (if o == .bad then "bad" else "ok"), false)
+    let (s', o) := step false s (.publish k st); pure (s', (if o == .bad then "bad" else "ok"), false, [])
   | ["unregpid", k] => do
     let k ← k.toNat?
-    let (s', o) := step false s (.unregPid k); pure (s', showObs o, false)
+    let (s', o) := step false s (.unregPid k); pure (s', showObs o, false, pidEvents s (.unregPid k))
   | ["unregname", k] => do
     let k ← k.toNat?
     let (s', o) := step false s (.unregName k)
     let x := getA s k
-    pure (s', showObs o, (x.map (fun x => x.remote && x.name.isSome)).getD false)
-  | "skip" :: _ => some (s, "ok", false)
+    pure (s', showObs o, (x.map (fun x => x.remote && x.name.isSome)).getD false, [])
+  | "skip" :: _ => some (s, "ok", false, [])
   -- t uncontrolled threads race for one fresh name: C10.exactly_one_winner, whereIs_sound,
   -- name_free_after_exit say what every such round must answer
-  | ["race", _] => some (s, "winners=1 agree=1 free=1", false)
+  | ["race", _] => some (s, "winners=1 agree=1 free=1", false, [])
   | ["lookup", n] => do
     let n ← n.toNat?
     let (s', o) := step false s (.lookup n)
     let interesting := match o with
       | .found (some (_, st)) => decide (st ≥ stopping)
       | _ => false
-    pure (s', showObs o, interesting)
+    pure (s', showObs o, interesting, [])
   | ["lookuppid", k] => do
     let k ← k.toNat?
-    let (s', o) := step false s (.lookupPid k); pure (s', showObs o, false)
+    let (s', o) := step false s (.lookupPid k); pure (s', showObs o, false, [])
   | ["waitret", k] => do
     let k ← k.toNat?
-    let (s', o) := step false s (.waitRet k); pure (s', showObs o, false)
+    let (s', o) := step false s (.waitRet k); pure (s', showObs o, false, [])
   | ["spawnret", k] => do
     let k ← k.toNat?
     let r := match getA s k with
       | none => "dup"
       | some x => if x.status = stopped then "fail" else "ok"
-    pure (s, r, false)
+    pure (s, r, false, [])
   | ["spawn", k, n, how] => do
     let k ← k.toNat?; let n ← parseOptNat? n
-    let (s', o) := match n with
-      | some n => step false s (.register k n)
-      | none => step false s (.create k)
-    if o != .ok then pure (s', showObs o, o == .dup)
-    else if how == "fail" then pure (runOps s' (.publish k 1 :: exitOps k), "fail", false)
-    else pure (runOps s' [.publish k 1, .publish k 2], "ok", false)
+    let op0 := match n with
+      | some n => Op.register k n
+      | none => Op.create k
+    let (s', o) := step false s op0
+    let e0 := pidEvents s op0
+    if o != .ok then pure (s', showObs o, o == .dup, e0)
+    else if how == "fail" then
+      pure (runOps s' (.publish k 1 :: exitOps k), "fail", false, e0 ++ evOps s' (.publish k 1 :: exitOps k))
+    else pure (runOps s' [.publish k 1, .publish k 2], "ok", false, e0)
   | ["spawnproxy", k, n] => do
     let k ← k.toNat?; let n ← parseOptNat? n
-    if exists? k then pure (s, "bad", false)
-    else pure (runOps s (spawnProxyOps k n), "ok", n.isSome)
+    if exists? k then pure (s, "bad", false, [])
+    else pure (runOps s (spawnProxyOps k n), "ok", n.isSome, [])
   | ["exit", k, _how] => do
     let k ← k.toNat?
-    if !exists? k then pure (s, "noactor", false)
+    if !exists? k then pure (s, "noactor", false, [])
     else
       let x := getA s k
-      pure (runOps s (exitOps k), "ok", (x.map (fun x => x.remote && x.name.isSome)).getD false)
+      pure (runOps s (exitOps k), "ok", (x.map (fun x => x.remote && x.name.isSome)).getD false,
+            evOps s (exitOps k))
   | ["exitbegin", k] => do
     let k ← k.toNat?
-    if !exists? k then pure (s, "noactor", false)
-    else pure (runOps s [.publish k stopping, .unregPid k, .unregName k], "ok", false)
+    if !exists? k then pure (s, "noactor", false, [])
+    else pure (runOps s [.publish k stopping, .unregPid k, .unregName k], "ok", false,
+               evOps s [.publish k stopping, .unregPid k, .unregName k])
   | ["exitend", k] => do
     let k ← k.toNat?
-    if !exists? k then pure (s, "noactor", false)
-    else pure (runOps s [.publish k stopped], "ok", false)
+    if !exists? k then pure (s, "noactor", false, [])
+    else pure (runOps s [.publish k stopped], "ok", false, [])
   | _ => none
 
 def step (d : DState) (op impl : String) : DState × StepOut :=
@@ -174,20 +195,21 @@ def step (d : DState) (op impl : String) : DState × StepOut :=
   match w with
   | "case" :: rest | "thrcase" :: rest =>
     let pidOn := rest.contains "pid=1"
+    let evOn := rest.contains "ev=1"
     let (_, iv) := splitImpl impl
     let v := parseView? iv
-    let d' : DState := { pidOn, prev := v }
+    let d' : DState := { pidOn, evOn, prev := v }
     let orc := match v with
       | some v => failing v
       | none => ["unparsable-view"]
-    (d', { model := s!"ok | {showView pidOn (view init)}", oracle := orc })
+    (d', { model := s!"ok | {showView pidOn { view init with evs := if evOn then some [] else none }}", oracle := orc })
   | _ =>
     match modelStep d.s w with
     | none => (d, { model := "bad-op" })
-    | some (s', ans, interesting) =>
+    | some (s', ans, interesting, mevs) =>
       let (ians, iv) := splitImpl impl
       let v := parseView? iv
-      let mv := view s'
+      let mv := { view s' with evs := if d.evOn then some mevs else none }
       -- oracle on the implementation's own observations
       let orcView := match v with
         | some v => failing v
@@ -218,6 +240,10 @@ def step (d : DState) (op impl : String) : DState × StepOut :=
             | _, _ => ["unparsable"]
           | _ => []
         | _ => []
+      -- a spawn that answered AlreadyRegistered must not have touched the pid table's listeners
+      let orcDup := match v with
+        | some v => if ians == "dup" && !(v.evs.getD []).isEmpty then ["dup-spawn-had-pid-side-effects"] else []
+        | none => []
       let orcRace := match w with
         | ["race", _] => if ians == "winners=1 agree=1 free=1" then [] else ["race-not-exactly-one-winner"]
         | _ => []
@@ -239,7 +265,7 @@ def step (d : DState) (op impl : String) : DState × StepOut :=
       let rereg := after.any (fun n => !before.contains n && d.released.contains n)
       ({ d with s := s', prev := v, waited, released },
        { model := s!"{ans} | {showView d.pidOn mv}",
-         oracle := orcView ++ orcReg ++ orcLookup ++ orcWait ++ orcRace,
+         oracle := orcView ++ orcReg ++ orcLookup ++ orcWait ++ orcRace ++ orcDup,
          nontrivial := interesting || rereg })
 
 def run (ops impl : Array String) : IO Tally :=
